@@ -137,8 +137,11 @@ def run(ctx):
         # (not in increasing order: a call may list far points before near ones)
         krho = np.array([1.0, 0.13, 0.77, 0.0, 0.4]) * krho_max
         phis = np.array([0.3, 1.9, 3.1, 4.4, 5.9])
-        det = detector_points(x=krho / K * np.cos(phis), y=krho / K * np.sin(phis), z=0.0)
-        sc = Sphere(n=m * NMED, r=r, center=(0.0, 0.0, z))
+        # the detector plane is at height 0 or elsewhere; the particle keeps its distance from it (only distances
+        # enter any of the routes)
+        zdet = rng.choice([0.0, 0.0, 1.3, -0.9])
+        det = detector_points(x=krho / K * np.cos(phis), y=krho / K * np.sin(phis), z=zdet)
+        sc = Sphere(n=m * NMED, r=r, center=(0.0, 0.0, z + zdet))
         kw = dict(medium_index=NMED, illum_wavelen=WL, illum_polarization=pol)
         ctx.case(tuple(sorted(c.items())), nontrivial=c["pol"] not in (0, 6) or kz < 0 or c["rho"] != "inside")
 
@@ -164,7 +167,9 @@ def run(ctx):
             ev["mb_degree"] = quant.mb(rel(field(MieLens(lens_angle=ang, calculator_accuracy_kwargs={
                 "interpolate_integrals": True, "interpolator_degree": 40})), d_off, scale))
             ab = [rel(field(AberratedMieLens(spherical_aberration=0.0, lens_angle=ang,
-                                             calculator_accuracy_kwargs=off)), d_off, scale)]
+                                             calculator_accuracy_kwargs=off)), d_off, scale),
+                  # the documented order of the positional arguments: aberration first, then the lens angle
+                  rel(field(AberratedMieLens(0.0, ang, off)), d_off, scale)]
             for k in range(1, 5):
                 ab.append(rel(field(AberratedMieLens(spherical_aberration=[0.0] * k, lens_angle=ang,
                                                      calculator_accuracy_kwargs=off)), d_off, scale))
